@@ -233,8 +233,8 @@ func realContentS(body hcl.Body, sch *schema.BodySchema, src []byte, native bool
 
 func jsonCases(run *Run, db DBody, nat, js string) {
 	for _, k := range db.Blocks {
-		if k.Type == "data" {
-			return // two-step dependent bodies: paired-rendering oracle only
+		if k.Type == "data" || k.Type == "plug" {
+			return // two-step dependent bodies, properties unknown to the schema: paired-rendering oracle only
 		}
 	}
 	sch := tfSchema()
@@ -491,7 +491,7 @@ func mutateBlockValue(r *rand.Rand, v JV, bs *schema.BlockSchema, labelsLeft int
 
 func jsonVariantCases(run *Run, r *rand.Rand, db DBody) {
 	for _, k := range db.Blocks {
-		if k.Type == "data" {
+		if k.Type == "data" || k.Type == "plug" {
 			return
 		}
 	}
